@@ -531,7 +531,10 @@ int libxmp_virt_setpatch(struct context_data *ctx, int chn, int ins, int smp,
 	voc = p->virt.virt_channel[chn].map;
 
 	if (voc > FREE) {
-		if (p->virt.voice_array[voc].act) {
+		/* The old voice can only move to a background channel if the
+		 * tables have any: a player mode switch can enable new note
+		 * actions on a module that was started without them. */
+		if (p->virt.voice_array[voc].act && p->virt.virt_channels > p->virt.num_tracks) {
 			vfree = alloc_voice(ctx, chn);
 
 			if (vfree < 0) {
